@@ -27,6 +27,7 @@
   primitive/blockwise.py key function (block coordinate of an
      argument: out coordinate, or 0 when it has one block)       argBlockShape, labelBlockLen
   core/ops.py _map_blocks (drop_axis/new_axis/chunks)            MapBlocks, mapBlocksToBw
+  core/ops.py arg_reduction / nanarg_reduction (first stage)      argMapMB
   core/ops.py squeeze / manipulation_functions expand_dims,
      permute_dims                                                squeezeMB, expandDimsMB, permuteBw
   core/ops.py partial_reduce / _partial_reduce                   PartialReduce, PRKind, prAxisChunks, prChunkss,
@@ -68,6 +69,11 @@ def consOpt {α : Type} (a : Option α) (b : Option (List α)) : Option (List α
 def allSome {α : Type} : List (Option α) → Option (List α)
   | [] => some []
   | x :: xs => consOpt x (allSome xs)
+
+/-- `f i x` over a list, `i` counting from `k`. -/
+def mapIdxFrom {α β : Type} (f : Nat → α → β) : Nat → List α → List β
+  | _, [] => []
+  | k, x :: xs => f k x :: mapIdxFrom f (k + 1) xs
 
 /-- the distinct elements in order of first appearance (a Python `set` built from the list). -/
 def dedupAux {α : Type} [BEq α] (seen : List α) : List α → List α
@@ -392,6 +398,16 @@ def expandDimsMB (x : Chunks) (axes : List Nat) : MapBlocks :=
 def permuteBw (x : Chunks) (axes : List Nat) : Bw :=
   { outInd := axes, args := [⟨x, List.range x.length⟩] }
 
+/-- first stage of `arg_reduction` / `nanarg_reduction` (repaired: the axis is normalised with `validate_axis`
+first; `none` = axis out of range): `map_blocks(_arg_map_func, x, chunks=<x.chunks with (1,)*nb on axis>)`;
+the block function reduces `axis` to length 1 (`BlockFn.setAxis axis 1`). -/
+def argMapMB (x : Chunks) (axis : Int) : Option (MapBlocks × Nat) :=
+  let nd : Int := x.length
+  if axis < -nd || axis ≥ nd then none else
+  let ax := (axis % nd).toNat
+  some ({ args := [x],
+          chunks := some (mapIdxFrom (fun i c => ChunkSpec.tup (if i = ax then List.replicate c.length 1 else c)) 0 x) }, ax)
+
 /-- `elemwise(f, *args)`: labels `range(ndim)[::-1]` for the output and every argument. -/
 def elemwiseBw (args : List Chunks) : Bw :=
   { outInd := revRange ((args.map List.length).foldl max 0),
@@ -422,10 +438,6 @@ structure PartialReduce where
   combine : List (Nat × CombSize)    -- axis ↦ combine_sizes (default 1)
   kind : PRKind := .keepdims
 deriving Repr, Inhabited
-
-def mapIdxFrom {α β : Type} (f : Nat → α → β) : Nat → List α → List β
-  | _, [] => []
-  | k, x :: xs => f k x :: mapIdxFrom f (k + 1) xs
 
 /-- chunks of the output along axis `i` (input chunks `c`): the explicit tuple, or
 `(size,) * ceil(len(c) / split_every[i])`. -/
